@@ -60,6 +60,18 @@ def ref_bracket(curve, t):
     return Q.bezier_bracket([complex(p) for p in _bps(curve)], 0.0, float(t), N=2048)
 
 
+_WHOLE = {}
+
+
+def _whole_bracket(curve):
+    key = repr(gen.seg_spec(curve))
+    if key not in _WHOLE:
+        if len(_WHOLE) > 64:
+            _WHOLE.clear()
+        _WHOLE[key] = ref_bracket(curve, 1.0)
+    return _WHOLE[key]
+
+
 def pre_inv(call):
     return _length_calls()
 
@@ -109,6 +121,23 @@ def post_inv(call):
         return True
     lower, upper = ref_bracket(curve, t)
     width = upper - lower
+    # the library's own length() may differ from the true length by up to 1e-6 relative (C06's subject; seen: 5e-9
+    # on a hairpin cubic of size 1e6).  Whatever it is observed to be off by on the whole curve is not charged to
+    # the inverse: s is a length in the library's own measure.
+    lo1, up1 = _whole_bracket(curve)
+    e = max(0.0, lo1 - L, L - up1)
+    if e > 1e-6 * L:
+        ctx.skip('library length outside the C06 tolerance (judged there)')
+        return True
+    if e > 0:
+        ctx.note('library_length_off_by_more_than_the_bracket')
+    tol += 2 * e
+    with monitor.suspended():
+        own = float(curve.length(0, t, error=call.a.get('error'), min_depth=call.a.get('min_depth'))) if 0 < t < 1 else (0.0 if t == 0 else L)
+    if not (abs(own - s) <= max(s_tol, 1e-9 * L) + 1e-9 * L):
+        ctx.violation('not-inverse-of-length/' + name, 'length(0, ilength(s)) differs from s',
+                      {'s': s, 't': t, 'length(0,t)': own, 'L': L, 'curve': gen.seg_spec(curve)})
+        return True
     if not (lower - tol <= s <= upper + tol):
         ctx.violation('not-inverse/' + name, 'reference arc length from 0 to ilength(s) differs from s',
                       {'s': s, 't': t, 'ref_lower': lower, 'ref_upper': upper, 'L': L, 'tol': tol,
